@@ -473,6 +473,10 @@ class Ctx:
                 # everything else propagates NaN; the application is kept visible as `name(NaN)`
                 return self.sym("%s(NaN)" % name)
             return self.sym("%s(%s)" % (name, ",".join(repr(a) for a in args)))
+        if getattr(self, "trig_axioms", False) and all(isinstance(a, RatFunc) for a in args):
+            r = self._trig(name, args)
+            if r is not None:
+                return r
         # light constant folding
         if name == "cbrt" and len(args) == 1 and isinstance(args[0], RatFunc) and not args[0].is_const():
             cube = _cube_of_linear(args[0], self)
@@ -551,6 +555,86 @@ class Ctx:
         a = self.tab.app(name, list(args))
         poly.register_atom(a)
         return RatFunc.atom(a, self.tab)
+
+    # ---- trigonometric axioms (enabled per rule; each use is an identity over the reals for the stated side conditions) ----
+    def _trig(self, name, args):
+        a0 = args[0]
+        at = _single_atom(a0)
+        if name == "deg2rad" and at is not None and at.name == "rad2deg":
+            return at.args[0]
+        if name == "rad2deg" and at is not None and at.name == "deg2rad":
+            return at.args[0]
+        if name in ("cos", "sin") and at is None:
+            # cos(x + pi) = -cos(x), sin(x + pi) = -sin(x)
+            pi = self.sym("pi")
+            rest = a0 - pi
+            if "pi" not in {poly.atom_by_id(k).name for k in rest.atoms()} and not rest.is_const():
+                return -self.app(name, [rest])
+        if name in ("cos", "sin") and at is not None and at.name == "atan2":
+            y, x = at.args
+            r = self.app("sqrt", [x * x + y * y])  # (x, y) != (0, 0)
+            return (x if name == "cos" else y) / r
+        if name == "sqrt":
+            b = self._pythagoras(a0)
+            if b is not None and not b.equals(a0):
+                return self.app("sqrt", [b])
+        if name == "max" and len(args) == 2:
+            for u, v in ((args[0], args[1]), (args[1], args[0])):
+                au = _single_atom(u)
+                if v.is_zero() and au is not None and au.name == "sqrt":
+                    return u  # sqrt(x) >= 0
+        if name == "atan2":
+            y, x = args
+            # atan2(r sin t, r cos t) = t (mod 2 pi) for r > 0
+            for aid in y.atoms():
+                sa = poly.atom_by_id(aid)
+                if sa.name != "sin" or not sa.args:
+                    continue
+                t = sa.args[0]
+                sin_t = RatFunc.atom(sa, self.tab)
+                cos_t = self.app("cos", [t])
+                try:
+                    ry, rx = y / sin_t, x / cos_t
+                except ZeroDivisionError:
+                    continue
+                if ry.equals(rx) and self._positive_product(ry):
+                    return t
+                if ry.equals(rx) and self._positive_product(-ry):
+                    return t - self.sym("pi")  # r < 0: the opposite direction, t +- pi (mod 2 pi)
+        return None
+
+    def _positive_product(self, r):
+        if r.is_const():
+            return r.const_value() > 0
+        if len(r.num) != 1 or len(r.den) != 1:
+            return False
+        (mn, cn), = r.num.items()
+        (md, cd), = r.den.items()
+        if Fraction(cn) / Fraction(cd) <= 0:
+            return False
+        return all(poly.atom_by_id(k).name in self.positive for k, _e in tuple(mn) + tuple(md))
+
+    def _pythagoras(self, rf):
+        """Rewrite sin(t)^2 -> 1 - cos(t)^2 in the numerator of rf (constant denominator only)."""
+        if not poly.p_is_const(rf.den):
+            return None
+        out = self.num(0)
+        changed = False
+        d = poly.p_const_value(rf.den)
+        for m, c in rf.num.items():
+            t = self.num(Fraction(c) / d)
+            for k, e in m:
+                at = poly.atom_by_id(k)
+                base = RatFunc.atom(at, self.tab)
+                if at.name == "sin" and at.args and e >= 2:
+                    cos_t = self.app("cos", [at.args[0]])
+                    sq = self.num(1) - cos_t * cos_t
+                    t = t * (sq ** (e // 2)) * (base ** (e % 2))
+                    changed = True
+                else:
+                    t = t * (base ** e)
+            out = out + t
+        return out if changed else None
 
     def sapp(self, name, args):
         """app lifted over case trees."""
